@@ -16,7 +16,7 @@ RULE = ("Every PDAG with acyclic directed part on p<=4 nodes (quick; 3,675 graph
         "maximally_orient(P) must equal the union graph of E (soundness and completeness in one comparison) and all_dags of "
         "it must equal E. Non-trivial = E non-empty and some edge undirected in P is directed in the union graph (something "
         "had to be inferred), or E empty. The evidence counts, with the library's own rule_k predicates, the cases in which "
-        "rule 3 / rule 4 is the only applicable rule for some edge at some step.")
+        "rule 3 / rule 4 is the only applicable rule for some edge at some step. Also: relabelled graphs, further dtypes and same-sign weighted presentations, a parametrised rule-4 gadget family (up to 64x4 chains) judged by the reference closure, an undirected K_470 minus an edge.")
 ASSUMPTIONS = [
     "oracle: brute-force extension enumeration (harness/graphs.py)",
     "Meek (1995): for a PDAG with a consistent extension the closure under rules 1-4 equals the union graph of its extensions",
